@@ -159,6 +159,19 @@ class Ctx:
                 return str(p.obj)
         return None
 
+    def solve(self, cond, timeout_ms=30000):
+        """decide premises /\\ path assumptions /\\ cond with a fresh one-shot solver (much faster than the
+        incremental solver used for branch feasibility). -> (z3 result, model or None)"""
+        s = z3.Solver()
+        s.set('timeout', timeout_ms)
+        s.add(self.s.assertions())
+        if isinstance(cond, (list, tuple)):
+            s.add(*cond)
+        else:
+            s.add(cond)
+        r = s.check()
+        return r, (s.model() if r == z3.sat else None)
+
     def continue_if(self, cond):
         """restrict the rest of the pipeline to paths where cond holds (e.g. previous kernel returned success)"""
         self.pc = z3.And(self.pc, cond)
